@@ -757,7 +757,12 @@ class TorState(object):
         #    3. Circuit instance: attach to the provided circuit
         def issue_stream_attach(circ):
             txtorlog.msg("circuit:", circ)
-            if circ is None or circ is TorState.DO_NOT_ATTACH:
+            if circ is TorState.DO_NOT_ATTACH:
+                # leave the stream alone entirely: neither attach it
+                # nor tell Tor to attach it
+                return None
+
+            if circ is None:
                 # tell Tor to do what it likes
                 return self.protocol.queue_command(
                     u"ATTACHSTREAM {} 0".format(stream.id).encode("ascii")
